@@ -323,6 +323,9 @@ def replay(rec):
             want = 'Less' if nx < ny else ('Greater' if nx > ny else 'Equal')
             inv = {'Less': 'Greater', 'Greater': 'Less', 'Equal': 'Equal'}[want]
             bad = bad or out['cmp_xy'][0] != want or out['cmp_yx'][0] != inv
+            # PartialOrd agrees with Ord (the operators <, <=, ... and sort() go through it)
+            bad = bad or out.get('pcmp_xy', ['Some(%s)' % want])[0] != 'Some(%s)' % want or out.get('pcmp_yx', ['Some(%s)' % inv])[0] != 'Some(%s)' % inv
+            bad = bad or out.get('lt_xy', [str(want == 'Less').lower()])[0] != str(want == 'Less').lower()
         return bad, 'native: %s' % {k: v for k, v in out.items() if not k.startswith('_')}
     if inp['kind'] == 'parse':
         raw = unhex(inp['raw'])
